@@ -37,6 +37,26 @@ def run(ctx):
                        lambda cell, pty=pty: [posit_arg(pty, cell[0][0], cell[0][1], 0)],
                        [cells], sqrt_spec(pty), pty.bits, exhaustive_limit=(256 if pty.bits == 8 else 0))
         tot += decided(st)
+    # hard-to-round arguments of P32E2::sqrt: the significands (27 fraction bits, both exponent parities) whose exact root lies closest to a
+    # rounding midpoint, computed once from the format definition alone (tools/gen_sqrt_hard.c -> sa/data/sqrt_hard_fb27.txt); decided singly.
+    import os
+    data = os.path.join(os.path.dirname(os.path.dirname(os.path.abspath(__file__))), 'data', 'sqrt_hard_fb27.txt')
+    path = prog.inherent(P32.tykey, 'sqrt')
+    if path and os.path.exists(data):
+        pp = P32.posit
+        pts = []
+        rows = [l.split() for l in open(data) if l.strip()]
+        if ctx.tier == 'quick':
+            rows = rows[:150] + rows[400:550]
+        for e_, X, d_ in rows:
+            X = int(X)
+            for base in (0, 2, -4, -2):
+                v = Fraction(X, 1 << 27) * Fraction(2) ** (base + int(e_))
+                u = pp.encode(v)
+                if pp.decode(u) == v:
+                    pts.append((u,))
+        run_points(ctx, prog, 'GCR', 'P32E2::sqrt', path, P32, pts, sqrt_spec(P32))
+        ctx.count('hard_case_points', len(pts))
     ctx.require('C06 decided cells', tot, 10)
     ctx.undecided['general_path'] = 'table + Newton-Raphson + final rounding of P16E1/P32E2 sqrt are not decided'
     return LEVEL, 'sqrt: NaR/negative/zero cells for three types by abstract interpretation; P8E0 fully decided by table agreement (R4).'
